@@ -36,3 +36,17 @@ int strcmp(const char *a, const char *b) { return cfgv_cmp(a, b, cfgv_eq_cs); }
 int strcasecmp(const char *a, const char *b) { return cfgv_cmp(a, b, cfgv_eq_ci); }
 void h_dfcc_leaf(void) { cfg_t *c; const char *n; cfg_getopt_leaf(c, n); }
 #endif
+/* cfg_print_pff_indent under its loop contract: filters and the option printer are monitor carriers */
+#ifdef CFGV_DFCC_PRINTCFG
+int cfgv_depth; cfg_t *cfgv_pc; FILE *cfgv_fp; cfg_print_filter_func_t cfgv_eff;
+static int cfgv_filter(cfg_t *cfg, cfg_opt_t *opt, cfg_print_filter_func_t self)
+{
+	__CPROVER_assert(self == cfgv_eff, "[C19] the filter asked is the effective one: the context's own, else the inherited one");
+	__CPROVER_assert(cfg == cfgv_pc && opt == &cfgv_pc->opts[cfgv_pos] && !cfgv_fasked, "[C19] the filter is asked once per entry, in declaration order, with the context being printed");
+	if (nondet_bool()) { cfgv_pos++; return 1 + (int)nondet_bool(); }       /* rejected: this entry is done */
+	cfgv_fasked = 1; return 0;
+}
+int cfgv_filter_own(cfg_t *cfg, cfg_opt_t *opt) { return cfgv_filter(cfg, opt, cfgv_filter_own); }
+int cfgv_filter_inh(cfg_t *cfg, cfg_opt_t *opt) { return cfgv_filter(cfg, opt, cfgv_filter_inh); }
+void h_dfcc_printcfg(void) { cfg_t *c; FILE *fp; cfg_print_filter_func_t f; int d; cfg_print_pff_indent(c, fp, f, d); }
+#endif
